@@ -49,7 +49,9 @@ def index(x, key):
     where_negative_step = []
     for i, ia in enumerate(idx.args):
         if isinstance(ia, ndindex.Slice) and ia.step < 0:
-            where_negative_step.append(i)
+            # axis of the output array, which has no axes for integer indexes
+            n = sum(isinstance(ib, ndindex.Integer) for ib in idx.args[:i])
+            where_negative_step.append(i - n)
             pos_slice = _convert_slice_with_negative_step(selection[i], x.shape[i])
             selection[i] = pos_slice
     where_negative_step = tuple(where_negative_step)
